@@ -337,12 +337,29 @@ def check_C05(run):
             handle_opts(S, w, r)
             groups.append([w, r])
             run.distinct.add((tid, vf.digest(v)))
+    # a table written with one definition and cut anywhere, read with another definition of the version pool
+    # (the cut may fall inside an entry the reader skips, or inside padding)
+    vts = [t for t in types if is_vpool(t)]
+    n = 0
+    for i, wt in enumerate(vts):
+        full = rep_value(types[wt], rng, i % 7)
+        nact = sum(1 for e in types[wt]["ents"] if e["act"])
+        readers = vts if thorough and i % 8 == 0 else [vts[(i * 37 + 11 * j + 1) % len(vts)] for j in range(3)]
+        for rt in readers:
+            v = full if n % 3 else table_patterns(types[wt], full, [((1 << nact) - 1) & (0x5555 << (n % 2))])[0]
+            w = {"c": "w", "wk": "pedantic", "cap": BIGCAP, "items": [{"tid": wt, "v": v}], "nolog": 1}
+            r = {"c": "rcuts", "tid": rt, "rks": all_reader_kinds(types[rt]), "src": "last"}
+            groups.append([w, r])
+            run.distinct.add((wt, rt, vf.digest(v)))
+            n += 1
     cmds = with_group_resets(groups)
     run.samples = groups[0] + groups[-1]
     run_codec(run, 'C05', cmds, mc=[MC_WIRE, mc_session(run)])
     run.exhaustive = False
     return vf.finish(run, rule='every pool type x values x EVERY cut position x every reader kind (buffer, pedantic, '
-                               'stringstream, ifstream, fd, BoundedReader over each); distinct = distinct (type, value)')
+                               'stringstream, ifstream, fd, BoundedReader over each), plus tables written with one definition '
+                               'of the version pool, cut at every position and read with another definition; '
+                               'distinct = distinct (type, value) resp. (writer, reader, value)')
 
 
 # ===========================================================================
@@ -744,7 +761,12 @@ def random_sequences(rng, side, count, length):
 def check_C16(run):
     thorough = run.tier == 'thorough'
     rng = random.Random(run.seed)
-    fut = [start_model_check(run, 'MC_IO', 'MC_IO_%s.cfg' % s, workers=8, label='io' + s) for s in ("r", "w")]
+    fut = [start_model_check(run, 'MC_IO', 'MC_IO_%s%s.cfg' % (s, '_thorough' if run.tier == 'thorough' else ''), workers=8,
+                              label='io' + s, timeout=2400) for s in ("r", "w")]
+    # the machine-arithmetic model of the wrappers: TLC with a 4-bit size_t (and its refinement of IO.tla),
+    # Apalache with the 64-bit one (inductive invariant: every limit, index and request size)
+    fut.append(start_model_check(run, 'MC_Confine', 'MC_Confine.cfg', workers=4, label='confine'))
+    fut.append(_bg.submit(vf.apalache_inductive, run, 'Confine', 'CInit64', 'Init', 'IndInit', 'IndInv', 'Safety'))
     seqs = gen_sequences(run, 2, 3, 6000 if thorough else 1500, rng)
     cmds = []
     k = 0
@@ -790,20 +812,22 @@ def check_C16(run):
 def check_C17(run):
     thorough = run.tier == 'thorough'
     rng = random.Random(run.seed)
-    fut = [start_model_check(run, 'MC_IO', 'MC_IO_%s.cfg' % s, workers=8, label='io' + s) for s in ("r", "w")]
+    fut = [start_model_check(run, 'MC_IO', 'MC_IO_%s%s.cfg' % (s, '_thorough' if run.tier == 'thorough' else ''), workers=8,
+                              label='io' + s, timeout=2400) for s in ("r", "w")]
     seqs = gen_sequences(run, 2, 3, 4000 if thorough else 1000, rng)
     cmds = []
     k = 0
     for side in ("r", "w"):
         full, sample = seqs[side]
-        kinds = ["pedantic", "buffer", "sstream", "fstream", "fd", "fdburst"] if side == "r" else ["pedantic", "buffer", "constexpr", "sstream", "fd"]
+        kinds = (["pedantic", "buffer", "sstream", "fstream", "fd", "fdburst"] if side == "r"
+                 else ["pedantic", "buffer", "constexpr", "sstream", "fd", "lstream", "fdfull"])
         lens = (0, 1, 2, 3, 4, 6, 12) if side == "r" else (0, 1, 2, 3, 4, 6)
         allseqs = list(full) + list(sample) + random_sequences(rng, side, 2000 if thorough else 500, 10)
         for seq in allseqs:
             for ln in (lens if (thorough or len(seq) <= 2) else (lens[k % 6],)):
                 for kind in kinds:
                     for bounded in (False, True):
-                        if kind in ("fd", "fdburst") and any(c["op"] in ("skip", "pad", "skipw", "padw") for c in seq):
+                        if kind in ("fd", "fdburst", "fdfull") and any(c["op"] in ("skip", "pad", "skipw", "padw") for c in seq):
                             continue
                         if not bounded and any(c["op"] in ("pad", "padw") for c in seq):
                             continue
@@ -839,7 +863,9 @@ def check_C17(run):
     return vf.finish(run, rule='the same TLC-generated and random call sequences executed directly on every reader '
                                '(BufferReader, PedanticBufferReader, StreamReader over stringstream and ifstream, FdReader, '
                                'BoundedReader over each) and every writer (Buffer within capacity, Pedantic, Constexpr, Stream, '
-                               'Fd, BoundedWriter over each), element widths 1/2/4/8; distinct = distinct commands')
+                               'Fd, StreamWriter over a stream that takes only cap bytes, FdWriter on /dev/full, BoundedWriter '
+                               'over each), element widths 1/2/4/8, accessors (size/capacity/remaining/empty) after every call; '
+                               'distinct = distinct commands')
 
 
 # ===========================================================================
@@ -962,17 +988,19 @@ def random_life_ops(rng, machine, n):
         x = rng.choice([1, 2, 3])
         t = rng.random() < 0.15
         if machine == "variant":
-            name = rng.choice(["new_empty", "new_ev", "new_a", "new_b", "new_c", "new_copy", "new_move", "assign_copy", "assign_move",
-                               "assign_a", "assign_b", "assign_c", "assign_ev", "become", "visit", "destroy", "new_a", "assign_b"])
+            name = rng.choice(["new_empty", "new_ev", "new_a", "new_b", "new_c", "new_i", "new_copy", "new_move", "assign_copy", "assign_move",
+                               "assign_a", "assign_b", "assign_c", "assign_i", "assign_ev", "become", "visit", "destroy", "new_a", "assign_b"])
             op = {"op": name, "o": o}
             if name in ("new_a", "new_b", "new_c", "assign_a", "assign_b", "assign_c"):
                 op.update({"val": x, "throw": t})
+            elif name in ("new_i", "assign_i"):
+                op["val"] = x
             elif name in ("new_copy", "assign_copy"):
                 op.update({"p": p, "throw": t})
             elif name in ("new_move", "assign_move"):
                 op.update({"p": p})
             elif name == "become":
-                op["idx"] = rng.choice([-2, -1, 0, 1, 2, 7])
+                op["idx"] = rng.choice([-2, -1, 0, 1, 2, 3, 7])
         elif machine == "uhandle":
             name = rng.choice(["new_empty", "new_res", "new_res", "new_move", "assign_move", "assign_move", "release", "close", "destroy"])
             op = {"op": name, "o": o}
@@ -989,10 +1017,14 @@ def random_life_ops(rng, machine, n):
                      "assign_rval", "clear", "take", "destroy", "new_val", "assign_val"]
             if machine == "result":
                 names += ["new_err", "assign_err", "assign_err"]
+            else:
+                names += ["assign_conv_move", "assign_conv_copy"]
             name = rng.choice(names)
             op = {"op": name, "o": o}
             if name in ("new_val", "assign_val", "new_rval", "assign_rval"):
                 op["val"] = x
+            elif name in ("assign_conv_move", "assign_conv_copy"):
+                op.update({"val": x, "srcempty": rng.random() < 0.3})
             elif name in ("new_err", "assign_err"):
                 op["val"] = rng.choice([0, 1, 2])
             elif name in ("new_copy", "assign_copy", "new_move", "assign_move"):
@@ -1161,6 +1193,7 @@ def check_C07(run):
     n = 0
     rks = ["pedantic", "sstream", "buffer", {"bounded": "pedantic", "limit": BIGCAP}, "fstream"]
     sentinel = {"tid": "u16", "v": [0xCD, 0xAB]}
+    fulls = {t: rep_value(types[t], rng, 3) for t in vts}
     for wt in vts:
         S = types[wt]
         full = rep_value(S, rng, n % 7)
@@ -1174,7 +1207,12 @@ def check_C07(run):
                 bits = sorted(set([(1 << nact) - 1, allbits[n % len(allbits)]]))
             for v in table_patterns(S, full, bits):
                 w = {"c": "w", "wk": "pedantic", "cap": 4096, "items": [{"tid": wt, "v": v}, sentinel], "nolog": 1}
-                r = {"c": "r", "rk": rks[n % len(rks)], "src": "last", "items": [{"tid": rt}, {"tid": "u16"}], "nolog": 1}
+                dst = {"tid": rt}
+                if n % 3:
+                    # the reader reuses a destination whose entries are all non-empty (3 is coprime to the number of
+                    # patterns, so every pattern - the all-empty one included - meets a reused destination)
+                    dst["prior"] = {"kind": "value", "v": fulls[rt]}
+                r = {"c": "r", "rk": rks[n % len(rks)], "src": "last", "items": [dst, {"tid": "u16"}], "nolog": 1}
                 groups.append([w, r])
                 n += 1
         run.distinct.add(wt)
@@ -1194,6 +1232,16 @@ def check_C07(run):
                 r = {"c": "r", "rk": rks[n % len(rks)], "src": "last", "items": [{"tid": rt}, {"tid": "u16"}], "nolog": 1}
                 groups.append([w, r])
                 n += 1
+                if kind == "S_TV_":
+                    # the same structure object receives a second record whose table has no non-empty entry
+                    Sr = types[rt]
+                    v0 = {"m": [[9], table_patterns(S["m"][1], tv, [0])[0], [3, 4]]}
+                    pv = {"m": [[7], rep_value(Sr["m"][1], rng, 4), [1, 2]]}
+                    w0 = {"c": "w", "wk": "pedantic", "cap": 4096, "items": [{"tid": wt, "v": v0}, sentinel], "nolog": 1}
+                    r0 = {"c": "r", "rk": rks[n % len(rks)], "src": "last",
+                          "items": [{"tid": rt, "prior": {"kind": "value", "v": pv}}, {"tid": "u16"}], "nolog": 1}
+                    groups.append([w0, r0])
+                    n += 1
     cmds = with_group_resets(groups, 100)
     run.samples = groups[0] + groups[len(groups) // 2]
     run.distinct = set(vf.digest(g) for g in groups)
